@@ -117,7 +117,10 @@ class Run:
         }
         if self.exhaustive is not None:
             cov["exhaustive"] = self.exhaustive
-        cov.update(self.sections)
+        # (a section may not take the name of a field the evidence schema types itself: its own name gets a prefix)
+        reserved = {"evaluations", "distinct_nontrivial", "rule", "samples", "states", "transitions", "traces_validated_against_impl", "obligations", "discharged", "checker_cmd",
+                    "trusted_base", "programs", "disagreements_checked", "explanation", "exhaustive"}
+        cov.update({(f"section_{k}" if k in reserved else k): v for k, v in self.sections.items()})
         ev = {
             "property_id": self.pid,
             "tier": self.tier,
